@@ -174,6 +174,8 @@ def rule_r(F):
         key = "C13/R/%s/probe-chain-repaired" % f.name
         if moves and loops:
             res.append(ok("C13.R", key, f.loc(vac[0]["expr"]["ln"]), "removal back-shifts the following entries of the probe chain"))
+            from rules.c12 import backshift_instances
+            res.extend(backshift_instances(f, "C13.R", "C13/R/%s" % f.name, power_of_two=True))
         else:
             res.append(bad("C13.R", key, f.loc(vac[0]["expr"]["ln"]),
                            "HandleTable::%s just marks the slot EMPTY: every handle that had probed past this slot is cut off from its probe "
@@ -245,6 +247,6 @@ RULES = [
     Rule("C13.H", rule_h, 1, "one home-slot function"),
     Rule("C13.I", rule_i, 2, "no stale slot index across reallocation"),
     Rule("C13.P", rule_p, 3, "capacity is always a power of two; pad_pot cannot underflow"),
-    Rule("C13.R", rule_r, 1, "removal repairs the probe chain"),
+    Rule("C13.R", rule_r, 4, "removal repairs the probe chain"),
     Rule("C13.Z", rule_z, 2, "zero handle rejected on every insertion path"),
 ]
